@@ -1,2 +1,2 @@
 SPECIFICATION TSpec
-INVARIANTS SRefusedExact SLogged SStep SExpected
+INVARIANTS SRefusedExact SLogged SStep SExpected SClock
